@@ -104,7 +104,7 @@ type CCSpec struct {
 //	Drop{N=from, M=to, I=sequence number}
 //	Ready{N} Persist{N} Apply{N} Advance{N}            (Ready/Advance interface)
 //	AppendStep{N} AppendResp{N} ApplyStep{N} ApplyResp{N}  (storage threads)
-//	Propose{N, Tags=[tag...] (one entry per tag), I=payload size, B=batch as one MsgProp from a client (false: RawNode.Propose), J=1: the client overwrites its payload buffer after the call returned (at a leader)}
+//	Propose{N, Tags=[tag...] (one entry per tag), I=payload size, B=batch as one MsgProp from a client (false: RawNode.Propose), J=1: the client overwrites its payload buffer after the call returned (at a leader), M=1 (E3): the proposer's context ends after the run loop took the proposal and before it posted the outcome}
 //	ConfChange{N, CC, I=unique context tag; optional CC2, J=its context tag: both changes travel in one MsgProp; or Tags, J=payload size: ordinary proposals following the change in the same MsgProp}
 //	ReadIndex{N, I=context tag}
 //	Transfer{N, M=transferee} Campaign{N} ForgetLeader{N} Unreachable{N, M} SnapReport{N, M=peer, B=ok}
@@ -174,6 +174,10 @@ type RunConfig struct {
 	// Virtual lists the ids of abstract peers (E2 followersim): members of the
 	// configuration that are modelled, not run.
 	Virtual []uint64 `json:"virtual,omitempty"`
+	// NodeAPI (E3 nodesim): every node is driven through the channel-based
+	// raft.Node (node.go) with its run loop goroutine under the simulator's
+	// schedule, instead of through the RawNode.
+	NodeAPI bool `json:"node_api,omitempty"`
 }
 
 func (rc *RunConfig) node(id uint64) *NodeCfg {
